@@ -119,6 +119,12 @@ def rule_r2(p, res):
     # the inverse branch flips both
     s = norm(f.node)
     r.check("pos_eigenvalues = pos_eigenvalues[::-1] ** (-1)" in s.replace("** -1", "** (-1)") and "pos_eigenvectors = pos_eigenvectors[:, ::-1]" in s, f, f.node, "for an inverse matrix values and vectors must be reversed together")
+    fd = Defs(f.node)
+    pi = fd.single("pos_index")
+    lim = fd.single("limit")
+    r.check(pi is not None and norm(pi) in ("eigenvalues > 0.0", "eigenvalues > 0"), f, f.node, "positivity of the eigenvalues must be tested against zero (found `%s`): an absolute threshold drops genuine "
+            "components of data measured in small units" % (norm(pi) if pi is not None else None), {"positivity": norm(pi) if pi is not None else None})
+    r.check(lim is not None and norm(lim) == "np.max(np.abs(eigenvalues)) * eps", f, f.node, "the eigenvalue floor must be relative to the largest eigenvalue (found `%s`)" % (norm(lim) if lim is not None else None))
     ip = p.func(DEC + "ipca")
     r.instance(ip)
     d = Defs(ip.node)
@@ -330,5 +336,6 @@ WITNESSES = [
     Witness("C10.W9", "menpo/model/pca.py", "PCAVectorModel.original_variance", "self._eigenvalues.sum() + self._trimmed_eigenvalues.sum()", "self._eigenvalues.sum()", rule="C10.R1", construct="original_variance"),
     Witness("C10.W10", "menpo/model/pca.py", "PCAVectorModel.n_active_components", "for r in self._total_eigenvalues_cumulative_ratio()", "for r in self.eigenvalues_cumulative_ratio()",
             rule="C10.R7", construct="n_active_components", note="seeded change C10-B", count=1),
+    Witness("C10.W11", "menpo/math/decomposition.py", "eigenvalue_decomposition", "pos_index = eigenvalues > 0.0", "pos_index = eigenvalues > eps", rule="C10.R2", construct="eigenvalue_decomposition", note="seeded change R2-C10-A"),
     Witness("C10.T1", "menpo/math/decomposition.py", "pca", "C = np.dot(X.conj().T, X) / (n - 1)", "nm1 = n - 1\n        C = np.dot(X.conj().T, X) / nm1", kind="T"),
 ]
